@@ -15,6 +15,8 @@ package zkmod
 
 //@ func (*Proof).Verify
 //@   nopanic[C05]
+//@   modifies nothing
+//@   allocates
 //@   requires public.N != nil && hash != nil && hash.h != nil
 
 //@ func challenge
